@@ -1463,6 +1463,21 @@ fn c19_run(lines: &[String], wrapper: &[String], envs: &[(String, String)]) -> R
             }
             continue;
         }
+        if l == "#await bestmove" {
+            // a GUI reacting to the announcement: go on the moment `bestmove` is read
+            s.send_bulk(&text);
+            text.clear();
+            let dl = Instant::now() + Duration::from_secs(60);
+            let mut seen = false;
+            while !seen && Instant::now() < dl {
+                match s.next(dl.saturating_duration_since(Instant::now())) {
+                    Some(ev) if ev.kind == Kind::Out && ev.text.starts_with("bestmove") => seen = true,
+                    Some(ev) if ev.kind == Kind::OutEof => break,
+                    _ => {}
+                }
+            }
+            continue;
+        }
         text.push_str(l);
         text.push('\n');
     }
@@ -1588,6 +1603,22 @@ pub fn worker_c19(shard: usize, _nshards: usize, seed: u64, tier: &str, out: &mu
             script.extend(c19_script(&root, depth, &[]));
             variants.push(("after ucinewgame interrupted a running search".into(), script, vec![], vec![]));
         }
+        // a GUI that answers `bestmove` with `ucinewgame` at once (the search thread may still be
+        // finishing), then starts the search under test a little later
+        for delay in [0u64, 120] {
+            let mut script = vec![];
+            for (r, d) in &related {
+                script.push(Cmd::Position(r.clone()).text());
+                script.push(format!("go depth {d}"));
+                script.push("#await bestmove".to_string());
+            }
+            script.push("ucinewgame".to_string());
+            script.push("isready".to_string());
+            script.push(format!("#sleep {}", delay + 60));
+            script.extend(c19_script(&root, depth, &[]));
+            let envs = if delay > 0 { vec![("VERIF_DELAY_AFTER_BESTMOVE".to_string(), delay.to_string())] } else { vec![] };
+            variants.push((format!("after ucinewgame sent in reaction to bestmove (announcement window stretched by {delay} ms)"), script, vec![], envs));
+        }
         if long {
             out.add("long_references", 1);
         }
@@ -1619,7 +1650,7 @@ pub fn run_c19(tier: &str, seed: u64) -> (Check, Agg) {
     let agg = par::run_workers("C19", tier, seed, nshards, &[], Duration::from_secs(if tier == "thorough" { 10800 } else { 1500 }), None, &[]);
     chk.evaluations = agg.c("perturbed_runs") + agg.c("reference_transcripts");
     chk.distinct_nontrivial = agg.c("transcripts_with_two_or_more_iterations");
-    chk.rule = "case = (root, depth 3-7): the complete stdout of `position; go depth d; wait` from a fresh engine is the reference; it must be byte-identical to the same script repeated, pinned to one core (taskset), at nice 19, with ASLR off (setarch -R), with the environment padded by 64 KiB (moves the stack), with schedule points delayed, under 16-way load (all workers run concurrently), and to the segment after `ucinewgame` following an arbitrary pre-history (other positions), a related pre-history (the same root searched shallower and deeper, a neighbouring position), `ucinewgame` sent while a `go infinite` is still running, and a pre-history of timed searches whose timer threads are still alive (each worker also runs one long depth-7 reference so that those timers fire during the search under test). A `go depth N` without time parameters must not be given a time budget (no `info time` line, no timer hook event): otherwise its result depends on the wall clock as soon as it needs longer. non-trivial = the reference completed at least two iterations.".into();
+    chk.rule = "case = (root, depth 3-7): the complete stdout of `position; go depth d; wait` from a fresh engine is the reference; it must be byte-identical to the same script repeated, pinned to one core (taskset), at nice 19, with ASLR off (setarch -R), with the environment padded by 64 KiB (moves the stack), with schedule points delayed, under 16-way load (all workers run concurrently), and to the segment after `ucinewgame` following an arbitrary pre-history (other positions), a related pre-history (the same root searched shallower and deeper, a neighbouring position), `ucinewgame` sent while a `go infinite` is still running, `ucinewgame` sent the moment `bestmove` of the related pre-history is read (the search thread may still be finishing; also with the window after the announcement stretched by 120 ms), and a pre-history of timed searches whose timer threads are still alive (each worker also runs one long depth-7 reference so that those timers fire during the search under test). A `go depth N` without time parameters must not be given a time budget (no `info time` line, no timer hook event): otherwise its result depends on the wall clock as soon as it needs longer. non-trivial = the reference completed at least two iterations.".into();
     chk.assumptions = vec!["hardware and allocator cannot be varied in this sandbox".into()];
     chk.need("reference transcripts", agg.c("reference_transcripts"), 20);
     chk.need("perturbed runs", agg.c("perturbed_runs"), 120);
